@@ -186,6 +186,11 @@ def safe_check(fam: Family, ax, case):
         raise
     except Exception as e:  # noqa
         fs = _felupe_frame(e.__traceback__)
+        if fs is None and rec.devs:
+            # the case has already recorded a deviation and a later oracle (which assumed the violated relation, e.g. a
+            # shape) failed inside the harness: a consequence, the recorded deviation stands
+            rec.label("oracle-aborted-after-a-deviation")
+            return rec
         if fs is None:
             raise HarnessError(
                 f"harness exception in {fam.name} axis={fam.axis_key(ax)} case={jdump(case)[:2000]}\n"
